@@ -190,7 +190,7 @@ func c06(args []string) int {
 	}
 	l1 := mk([]int{1}, nil)
 	l2 := mk([]int{1, 2}, nil)
-	l3 := mk([]int{1, 2, 3}, func(c *scn.Config) { c.AutoVacuum = "INCREMENTAL" })
+	l3 := mk([]int{1, 2, 3}, func(c *scn.Config) { c.AutoVacuum = "INCREMENTAL"; c.VerifyCompaction = true }) // also runs litestream's own post-compaction consistency check (must never object)
 	l8 := mk([]int{1, 2, 3, 4, 5, 6, 7, 8}, nil)
 	l2ret := mk([]int{1, 2}, func(c *scn.Config) { c.L0RetentionNS = 1 }) // CMP:1 also prunes level 0 (restore must not change)
 	l2closed := mk([]int{1, 2}, func(c *scn.Config) { c.LevelIntervalNS = int64(1000 * time.Hour) })
